@@ -378,6 +378,19 @@ func init() {
 				_ = r.AddType("@T", t)
 				return errStr(r.Check()) + " | " + errStr(r.Validate(jdoc.New("d", `{"t":{"u":"x"}}`)))
 			}},
+			{"a chain of added types five links long, a rule set at its end: root -> @T -> @U -> @V -> @W", func() string {
+				w := jschema.New("@W", `1 // {or: [{type: "integer"}, {type: "string"}]}`)
+				v := jschema.New("@V", `{"w": @W, "s": 1 // {or: [{type: "integer"}, {type: "null"}]}`+"\n}")
+				u := jschema.New("@U", `[@V]`)
+				t := jschema.New("@T", `{"u": @U}`)
+				r := jschema.New("root", `{"t": @T}`)
+				// from the top down: nothing has been compiled before the root is
+				_ = r.AddType("@T", t)
+				_ = t.AddType("@U", u)
+				_ = u.AddType("@V", v)
+				_ = v.AddType("@W", w)
+				return errStr(r.Check()) + " | " + errStr(r.Validate(jdoc.New("d", `{"t":{"u":[{"w":"x","s":null}]}}`)))
+			}},
 			{"two types with a broken allOf rule", func() string {
 				return errStr(mk(`1`, [][2]string{{"@A", "{ // {allOf: \"@X\"}\n}"}, {"@B", "{ // {allOf: \"@I\"}\n}"}, {"@I", "1"}}).Check())
 			}},
